@@ -29,10 +29,11 @@ from vf import gen, ref, si, engines, simhelp
 from vf.common import Run, seed, tier, use_repo, chash, SCRATCH
 from vf.sandbox import pmap
 
-ALPHA = ["setup1", "setup2", "setup3", "iterate", "iterate_n3", "iterate_n0", "run0", "sample", "get_progress",
+BIG_N = [3_000_000_000, 2 ** 32, 2 ** 31, 2 ** 32 + 2, 10 ** 12]      # "until it is done": counts beyond a C int
+ALPHA = ["setup1", "setup2", "setup3", "iterate", "iterate_n3", "iterate_n0", "iterate_nbig", "run0", "sample", "get_progress",
          "is_complete", "get_output", "finalize"]
 AFTER_RELEASE = {"setup1", "setup2", "setup3", "finalize", "is_complete"}
-NATIVE_STATE_CHANGING = {"setup1", "setup2", "setup3", "iterate", "iterate_n3", "run0", "sample", "finalize"}
+NATIVE_STATE_CHANGING = {"setup1", "setup2", "setup3", "iterate", "iterate_n3", "iterate_nbig", "run0", "sample", "finalize"}
 
 _REF = {}
 
@@ -174,6 +175,8 @@ def play(kind_, seq, eng, model, refs, bad, counts, ctx, observe=None):
             ret = eng.iterate_n(3)
         elif call == "iterate_n0":
             ret = eng.iterate_n(0)
+        elif call == "iterate_nbig":
+            ret = eng.iterate_n(BIG_N[pos % len(BIG_N)])
         elif call == "run0":
             ret = eng.run(0)
         elif call == "sample":
@@ -227,6 +230,11 @@ def play(kind_, seq, eng, model, refs, bad, counts, ctx, observe=None):
             want = 0 if was_complete else min(3, R["K"] - model.k)
             if adv != want:
                 fail("iterate_n(3): wrong number of steps", pos, call, advanced=adv, expected=want, was_complete=was_complete)
+        elif call == "iterate_nbig":
+            want = 0 if was_complete else R["K"] - model.k
+            if adv != want:
+                fail("iterate_n(%d): wrong number of steps (more iterations requested than the simulation needs)" % BIG_N[pos % len(BIG_N)],
+                     pos, call, advanced=adv, expected=want, was_complete=was_complete, mech_hint="iterate_n-beyond-c-int")
         elif call == "run0":
             if adv < 0 or (was_complete and adv != 0):
                 fail("run(0): clock moved on a completed simulation / backwards", pos, call, advanced=adv)
@@ -253,7 +261,7 @@ def play(kind_, seq, eng, model, refs, bad, counts, ctx, observe=None):
                  step=model.k, completes_at=R["K"],
                  mech_hint=("after-setup" if call.startswith("setup") else "after-iterate_n0" if call == "iterate_n0" else "other"))
             return
-        if call in ("iterate", "iterate_n3", "run0", "iterate_n0"):
+        if call in ("iterate", "iterate_n3", "run0", "iterate_n0", "iterate_nbig"):
             cnt("loop_return_checks")
             if bool(ret) != (not complete):
                 fail("loop call returned a completion status that contradicts the simulation", pos, call, returned=bool(ret),
@@ -350,6 +358,8 @@ def _apply(eng, call, refs):
         return eng.iterate_n(3)
     if call == "iterate_n0":
         return eng.iterate_n(0)
+    if call == "iterate_nbig":
+        return eng.iterate_n(3_000_000_000)
     if call == "run0":
         r_ = eng.run(0)
         return r_
